@@ -1,8 +1,10 @@
+import WS.Lemmas.WriterMore
 import WS.Lemmas.WireInv
 import WS.Lemmas.Codec
 import WS.Lemmas.WireWF
 import WS.Lemmas.Content
 import WS.Gen.Skeletons
+import WS.Lemmas.CompressedWrite
 /-
   C02 — Everything written to the wire is well-formed RFC 6455 / RFC 7692 framing.
   (The frame-record level statement — masks, RSV bits, fragmentation grammar — is
@@ -105,5 +107,37 @@ theorem length_switch_as_modelled :
 /-- non-vacuity: a server fast-path message of 20 bytes (buffer 16: header+16 bytes, then 4 extra bytes) decodes to one binary frame -/
 example : (Spec.decodeStream (writeMessage (newW true 16 false false) 2 (List.replicate 20 7)).2.wire).map (·.length) = some 1 := by
   decide
+
+open WS.Content WS.CompressedWrite in
+/-- compressed messages (RFC 7692): with compression negotiated and enabled, a data message written in
+    any pieces, with flate emitting its output in any chunks, reaches the wire as exactly one message
+    with RSV1 on its first frame only whose payload is the deflate stream minus the 00 00 ff ff tail -/
+theorem compressed_message_roundtrip (s : W) (hi : IdleZ s) (t : Nat) (ht : t = 1 ∨ t = 2)
+    (writes : List (Bytes × List Bytes)) (dnC : List Bytes) (full : Bytes)
+    (hsz : ∀ w ∈ writes, ∀ c ∈ w.2, c.length < 2 ^ 40) (hszC : ∀ c ∈ dnC, c.length < 2 ^ 40)
+    (htail : 4 ≤ full.length ∧ full.drop (full.length - 4) = sync4)
+    (hcons : pushed writes dnC = full.take (full.length - 4)) :
+    let s' := run s (zOps s t writes dnC full)
+    IdleZ s' ∧
+    wireMessages s' = wireMessages s ++ [⟨t, true, full.take (full.length - 4)⟩] ∧
+    wireControls s' = wireControls s := by
+  first | exact CompressedWrite.compressed_message_roundtrip .. | (apply CompressedWrite.compressed_message_roundtrip <;> assumption)
+
+open WS.Content WS.WriterMore in
+/-- key_per_frame: every frame a client writes takes the next draw of the key source; the frames of
+    one message carry consecutive draws and the source advances by the number of frames -/
+theorem key_per_frame (s : W) (hi : Idle s) (hclient : s.isServer = false) (t : Nat) (ht : t = 1 ∨ t = 2)
+    (data : Bytes) (hd : data.length < 2 ^ 40) :
+    let s' := (writeMessage s t data).2
+    ∃ n, s'.keyIdx = s.keyIdx + n ∧
+      wireKeys s' = wireKeys s ++ (List.range n).map (fun i => some (keyAt s (s.keyIdx + i))) ∧ 0 < n := by
+  first | exact WriterMore.key_per_frame .. | (apply WriterMore.key_per_frame <;> assumption)
+
+open WS.Content WS.WriterMore in
+/-- servers never mask -/
+theorem server_never_masks (s : W) (hi : Idle s) (hsrv : s.isServer = true) (t : Nat) (ht : t = 1 ∨ t = 2)
+    (data : Bytes) (hd : data.length < 2 ^ 40) :
+    wireKeys (writeMessage s t data).2 = wireKeys s ++ List.replicate ((wireKeys (writeMessage s t data).2).length - (wireKeys s).length) none := by
+  first | exact WriterMore.server_never_masks .. | (apply WriterMore.server_never_masks <;> assumption)
 
 end WS.Props.C02
